@@ -192,6 +192,9 @@ def run(ctx):
                 sub = rng.random()
                 sp = [(r, o) for r, o in utxo.items() if o.public_key.public_key in keys.pks and o.value > 0]
                 free = [(r, o) for r, o in sp if r not in in_pool]
+                forced_bad = None
+                if step in (10, 30, 50) and len(free) >= 2:
+                    sub, forced_bad = 0.8, ["fee_covers_bad_last", "fee_covers_ghost_last", "fee_covers_bad_last"][(step // 20) % 3]
                 if sub < 0.40 and free:
                     k = rng.randrange(1, min(3, len(free)) + 1)
                     rng.shuffle(free)
@@ -215,7 +218,12 @@ def run(ctx):
                     kind = "resubmitted"
                 elif sub < 0.85 and free:
                     r, o = free[0]
-                    bad = rng.choice(["overspend", "zero", "wrongkey", "nosig", "noinputs", "dupref", "halfsigned", "halfsigned"])
+                    bad = rng.choice(["overspend", "zero", "wrongkey", "nosig", "noinputs", "dupref", "halfsigned", "halfsigned",
+                                      "fee_covers_bad_last", "fee_covers_ghost_last"])
+                    if forced_bad is not None:
+                        bad = forced_bad
+                    if bad.startswith("fee_covers") and len(free) < 2:
+                        bad = "wrongkey"
                     same_key = [(r2, o2) for r2, o2 in free[1:] if o2.public_key.public_key == o.public_key.public_key]
                     if bad == "halfsigned" and not same_key:
                         bad = "wrongkey"
@@ -237,6 +245,16 @@ def run(ctx):
                         from skepticoin.signing import SECP256k1Signature
                         tx = Transaction([t0.inputs[0], Input(r2, SECP256k1Signature(bytes(rng.getrandbits(8) for _ in range(64))))],
                                          t0.outputs)
+                    elif bad == "fee_covers_bad_last":
+                        # two inputs, outputs worth no more than the first: the last input is signed by a foreign key
+                        r2, o2 = free[1]
+                        tx = chain.make_tx(keys, utxo, [r, r2], [(o.value, 0)],
+                                           signer_override={1: (keys.index_of(o2.public_key.public_key) + 1) % 5})
+                    elif bad == "fee_covers_ghost_last":
+                        # … or refers to an output that does not exist
+                        from skepticoin.datatypes import OutputReference as _OR
+                        ghost = _OR(bytes([0x66]) * 32, 2)
+                        tx = chain.make_tx(keys, {**dict(utxo.items()), ghost: Output(7, keys.pk(1))}, [r, ghost], [(o.value, 0)])
                     elif bad == "noinputs":
                         tx = Transaction([], [Output(5, keys.pk(0))])
                     else:
